@@ -1292,6 +1292,11 @@ class EtreeElementNode(ElementNode):
 
     def clear_types(self) -> None:
         """Clear XSD types for element node subtree."""
+        if not isinstance(self.parent, EtreeElementNode):
+            # The whole tree is cleared: it's no more bound to a schema, so that
+            # a following apply_schema() with the same schema is not skipped.
+            self.tree.schema = None
+
         for node in self.iter_descendants(with_self=True):
             if isinstance(node, EtreeElementNode):
                 node.xsd_type = None
